@@ -10,7 +10,8 @@ Parts
                 less accurate by more than 10x)
              3. retries: the step sizes offered within one integrator call are recorded by wrapping the step method of
                 the integrator *instance*: every retry after a rejection has strictly smaller magnitude than the
-                previous attempt (not larger for an unconverged implicit solve) and the same sign; the accepted dT is
+                previous attempt (for implicit methods, whose retries also follow unconverged Newton solves: never larger than
+                the step first requested) and the same sign; the accepted dT is
                 that of the last attempt
   blowup     y' = y^2, y(0) = 1 integrated across t = 1, and benign problems with tolerances that cannot be met
              (1e-30): either FailedIntegration caused by FailedToMeetTolerances, or every recorded state satisfies
@@ -74,8 +75,18 @@ def _accuracy(draw):
     lo = math.log10(_min_tol(method))
     tol = 10.0 ** draw(st.floats(lo, -3.0).map(lambda x: round(x, 1)))
     dtfrac = draw(st.sampled_from([1e-4, 1e-3, 0.01, 0.1, 0.5, 1.0, 4.0]))
+    # tolerances that differ from each other, on states far from magnitude one (linear problems scale freely)
+    atol = tol
+    if kind == "lin":
+        yscale = draw(st.sampled_from([1.0, 1.0, 1e-5, 1e4]))
+        y0 = [v * yscale for v in y0]
+        if yscale < 1:
+            atol = tol * draw(st.sampled_from([1.0, 1e-6, 1e-9]))      # rtol >> atol with |y| << 1
+        elif yscale > 1:
+            atol = tol * draw(st.sampled_from([1.0, 1e3]))             # atol >> rtol with |y| >> 1
+            tol = tol
     return dict(part="accuracy", method=method, dtype="float64", prob=prob, y0=y0, t0=t0, tf=tf, dt=L * dtfrac * draw(st.sampled_from([1.0, -1.0])),
-                rtol=tol, atol=tol, dense=False)
+                rtol=tol, atol=atol, dense=False)
 
 
 @st.composite
@@ -203,7 +214,9 @@ def _check_accuracy(case):
             rejected += len(hs) - 1
         for h_prev, h_next in zip(hs, hs[1:]):
             same_sign = (h_prev > 0) == (h_next > 0) and h_next != 0
-            smaller = abs(h_next) < abs(h_prev) if not implicit else abs(h_next) <= abs(h_prev)
+            # an implicit method also retries when its Newton solve did not converge (not a rejection by the controller):
+            # there only "never beyond the step that was requested" is demanded
+            smaller = abs(h_next) < abs(h_prev) if not implicit else abs(h_next) <= abs(hs[0])
             if not (same_sign and smaller):
                 viols.append(V("retry_not_smaller", "{}: within one step from t={!r} the attempts were offered {} - a retry must have strictly smaller magnitude and the same sign".format(
                     method, t_start, hs), fam, **attrs))
